@@ -176,15 +176,20 @@ class Topology:
     pass
 
   def __traverse_component(self, segment_end, c, visited):
-    s = segment_end.segment
-    assert(isinstance(s, gfapy.Line))
-    for l in s.dovetails_of_end(segment_end.end_type):
-      oe = l.other_end(segment_end)
-      sn = oe.name
-      s = oe.segment
-      if sn in visited:
-        continue
-      visited.add(sn)
-      c.add(s)
-      for e in ["L","R"]:
-        self.__traverse_component(gfapy.SegmentEnd(s, e), c, visited)
+    # (iterative: a chain of thousands of segments would otherwise exceed
+    #  the recursion limit of the interpreter)
+    to_visit = [segment_end]
+    while to_visit:
+      segment_end = to_visit.pop()
+      s = segment_end.segment
+      assert(isinstance(s, gfapy.Line))
+      for l in s.dovetails_of_end(segment_end.end_type):
+        oe = l.other_end(segment_end)
+        sn = oe.name
+        s2 = oe.segment
+        if sn in visited:
+          continue
+        visited.add(sn)
+        c.add(s2)
+        for e in ["L","R"]:
+          to_visit.append(gfapy.SegmentEnd(s2, e))
